@@ -49,7 +49,7 @@ def dispatch(loader):
     return out
 
 
-TASKS = [FunctionTask(CHECK_NPTS, clauses=["a sample count that disagrees with the header raises"]), StructTask("read-broadcast", read_broadcast),
+TASKS = [FunctionTask(CHECK_NPTS, clauses=["a sample count that disagrees with the header raises"]), StructTask("read-broadcast", read_broadcast, textual=True),
          StructTask("reader-registry", dispatch)]
 
 # ---------------------------------------------------------------------------------------------------------------------
